@@ -48,18 +48,21 @@ ACC = {"Mercury": 1.0, "Venus": 1.0, "Earth": 1.0, "Mars": 1.0, "Jupiter": 2.0, 
 #   Uranus.perihelion_aphelion 6..8 (Jupiter/Saturn perihelion_aphelion: <= 2, i.e. fine)
 EVENT_ENV = {"Jupiter.passage_nodes": 30.0, "Saturn.passage_nodes": 100.0, "Uranus.passage_nodes": 600.0,
              "Uranus.perihelion_aphelion": 10.0}
-#   backward drift (days) of the answer for one and the same node passage: Saturn <= 10.4, Uranus <= 69
-BACK_ENV = {"Saturn.passage_nodes": 12.0, "Uranus.passage_nodes": 80.0}
+#   backward drift (days) of the answer for one and the same node passage as the query advances (passage_nodes evaluates
+#   the mean elements at the query).  The clause "never moves backwards" is applied literally (> 1e-6 d) to every finder;
+#   the periodic-term finders and perihelion_aphelion meet it (functions of the index only).  passage_nodes, measured on the
+#   unchanged tree (quick seeds 0..5, thorough seeds 0..2, plus a 6-era scan of every planet), maximum per planet:
+#   Mercury 0.00030, Venus 0.0022, Earth 0.020, Mars 0.040, Jupiter 0.83, Saturn 10.4, Uranus 69; envelope = 1.5 x maximum
+BACK_ENV = {"Mercury.passage_nodes": 0.0005, "Venus.passage_nodes": 0.0035, "Earth.passage_nodes": 0.03,
+            "Mars.passage_nodes": 0.06, "Jupiter.passage_nodes": 1.25, "Saturn.passage_nodes": 16.0, "Uranus.passage_nodes": 104.0}
 # share of the orbital-finder queries of one search run that may raise (known finding) before it is "gross":
 # unchanged tree, the sweeps' own sampling (both ends of the range + random eras), seeds 0..5:
 #   quick (300 queries/planet): Jupiter 13.3..21.7 %, Saturn 15.7..18.3 %; thorough (3936): Jupiter 8.7..11.2 %, Saturn 8.2..9.5 %
+ELON_TOL = 0.05
 RAISE_RATE_MAX = {"Jupiter": 0.35, "Saturn": 0.30}
 RAISE_RATE_MIN_QUERIES = 40
 RAISE_ENV = {"Jupiter": "Invalid interval: Probably no root exists", "Saturn": "Invalid interval: Probably no root exists"}
 
-# perihelion_aphelion interpolates the same VSOP87 radius vector the oracle uses: on the unchanged tree its answer is
-# within 0.01 d of the extremum for Mercury..Mars and Earth (calibration), so these are held to 0.1 d instead of 1 d
-PERI_ACC = {"Mercury": 0.1, "Venus": 0.1, "Earth": 0.1, "Mars": 0.1}
 # passage_nodes = nearest perihelion (within P/2 of the query) + up to ~0.53 P to the node: Mercury's descending node
 # passage is up to 1.032 P from the query on the unchanged tree (known finding inside 1.06 P)
 FAR_ENV = {"Mercury.passage_nodes": 1.06}
@@ -105,12 +108,13 @@ CLAUSES = {
     "ValueError outside -2000..4000 (28 finders)": "proved [ideal, given Epoch.year = y]",
     "TypeError for a non-Epoch argument (None/bool/int/float/str)": "proved [ideal]; other types searched",
     "result never moves backwards as the query YEAR advances; distinct results >= B-2C apart": "proved [ideal + spec, all real years in -2000..4000]",
+    "never moves backwards, literally (> 1e-6 d) on the implementation": "searched for every finder; met by the periodic-term finders and perihelion_aphelion; passage_nodes drifts backwards for one and the same node passage (known findings moves-backwards:<Planet>.passage_nodes with envelopes BACK_ENV)",
     "consecutive results one synodic period apart within +-2C (C by interval arithmetic from the proved coefficients)": "proved [ideal + spec]",
     "no event skipped or repeated (index non-decreasing, onto, every intermediate index taken)": "proved [spec, all reals]",
     "result within B/2 + D + |c0| + C of a query within D of 365.2425 y + 1721060": "proved [spec]; D <= 20 for y = Epoch.year searched",
     "Epoch.year non-decreasing in the JDE (so monotone in the query EPOCH)": "unproved (searched): C16's clause; dense scan incl. Julian century leap days",
     "Epoch(x) stores x (JDE -> date -> JDE round trip)": "unproved (searched): C02's clause; correspondence + |result - closed form| in the search",
-    "the returned instant IS the event per the library's VSOP87 (longitude difference 0/180, max elongation = reported angle, stationary longitude, extremal radius, zero latitude)": "unproved (searched): two 1000-term series; oracle with the property's tolerances",
+    "the returned instant IS the event per the library's VSOP87 (longitude difference 0/180, max elongation = reported angle, stationary longitude, extremal radius, zero latitude)": "unproved (searched): two 1000-term series; oracle with the property's tolerances (1 d Mercury-Mars incl. perihelion/aphelion, 2 d beyond); reported elongation within 0.05 deg of the geometric elongation = what one day of timing error amounts to for Mercury (0.02-0.06 deg; Venus 0.004 deg is below the aberration/light-time floor of the comparison)",
     "perihelion_aphelion (7 planets): result = Epoch(minmax of the 3-point interpolation of R at m-h, m, m+h), m = J0 + k(P - k c) [+ Earth's correction sum], k = round(a(y-y0)) (perihelion) / round(a(y-y0)+1/2)-1/2 (aphelion), every constant; TypeError for a non-Epoch scalar":
         "proved [ideal; Epoch.year, Epoch(x), <Planet>.geometric_heliocentric_position (VSOP87), Interpolation() and minmax() (assumed not to raise) as hypotheses]",
     "perihelion/aphelion: chosen index within 1/2 of a(y-y0) => result within (P+d)/2 + h of the query's mean instant; successive events P +- (d+2h) apart; perihelia and aphelia alternate (2h + d < P/2 proved per planet)":
@@ -242,7 +246,11 @@ def check_event(sky, planet, fname, variant, jde, extra, tol):
         side = norm180(e0[0] - e0[1])
         if (fname == "eastern_elongation") != (side > 0):
             return "planet is %s of the Sun (longitude difference %.3f)" % ("east" if side > 0 else "west", side)
-        if abs(e0[2] - extra) > 0.05:
+        # "equal to the reported angle ... within the accuracy of the series (1 day)": one day of timing error changes
+        # the elongation by 0.02..0.06 deg for Mercury (0.003..0.004 for Venus, below the ~0.006 deg that aberration and
+        # light-time, ignored by this geometric comparison, contribute); observed |reported - theory| on the unchanged
+        # tree: Mercury <= 0.022, Venus <= 0.011.  ELON_TOL = the 1-day equivalent for Mercury.
+        if abs(e0[2] - extra) > ELON_TOL:
             return "reported elongation %.4f, position theory gives %.4f" % (extra, e0[2])
         return None
     if fname in ("station_longitude_1", "station_longitude_2"):
@@ -333,7 +341,7 @@ def sweep(mods, sky, planet, fname, variant, start, nper, steps, add, stats, che
     # the event index: answers for the same event are identical.
     drift = fname == "passage_nodes"
     same_w = 0.25 * P if drift else 1e-6
-    back_w = ACC[planet] if drift else 1e-6
+    back_w = 1e-6          # "never moves backwards", literally: anything beyond float noise is a finding
     prev = None
     runmax = None
     nd = 0
@@ -373,9 +381,8 @@ def sweep(mods, sky, planet, fname, variant, start, nper, steps, add, stats, che
             if res < runmax[1] - back_w:
                 amount = runmax[1] - res
                 key = "moves-backwards:%s" % kname
-                if kname in BACK_ENV and amount > BACK_ENV[kname]: key += "-gross"
-                if kname in BACK_ENV:
-                    stats["max_backward_drift_days"][kname] = round(max(stats["max_backward_drift_days"].get(kname, 0.0), amount), 3)
+                if kname in BACK_ENV and amount > BACK_ENV[kname]: key = "moves-backwards-gross:%s" % kname
+                stats["max_backward_drift_days"][kname] = round(max(stats["max_backward_drift_days"].get(kname, 0.0), amount), 6)
                 add(key, "%s: query %r -> %r but later query %r -> %r (%.4f days earlier)"
                     % (name, runmax[0], runmax[1], q, res, runmax[1] - res), planet, fname, variant, q)
             elif new_event:
@@ -391,8 +398,7 @@ def sweep(mods, sky, planet, fname, variant, start, nper, steps, add, stats, che
             nd += 1
             stats["distinct_nontrivial"] += 1
             if check_every and nd % check_every == 0 and not (planet == "Earth" and fname == "passage_nodes"):
-                acc = PERI_ACC.get(planet, ACC[planet]) if fname == "perihelion_aphelion" else ACC[planet]
-                why = check_event(sky, planet, fname, variant, res, extra, acc)
+                why = check_event(sky, planet, fname, variant, res, extra, ACC[planet])
                 stats["events_checked"] += 1
                 if why:
                     key = "not-the-event:%s" % kname
